@@ -98,6 +98,14 @@ func (zzC19Log) Error(string)          {}
 func (zzC19Log) Errorf(string, ...any) {}
 
 func zzC19SeqConn(isClient bool, nw *zzC19Net) *Conn {
+	c := zzC19SeqConnRaw(isClient, nw)
+	// the export points of the property are points of an ESTABLISHED connection
+	dtlshandshake.ZZMarkEstablished(c.handshakeEstablished)
+
+	return c
+}
+
+func zzC19SeqConnRaw(isClient bool, nw *zzC19Net) *Conn {
 	return &Conn{
 		state:                   dtlsstate.NewActive(isClient),
 		nextConn:                nw,
